@@ -208,6 +208,11 @@ def run(ctx):
                 os.remove(target)
     streams.append(dc)
 
+    streams.append(exploratory_stream(ctx, r))
+    return streams
+
+
+def exploratory_stream(ctx, r):
     # exploratory: final frame of a run without trailing CR LF (observation O1), vendor-free STX garbage
     x = Stream("exploratory-O1", in_domain=False)
     hs = []
@@ -216,6 +221,14 @@ def run(ctx):
         frames[-1] = frames[-1].rstrip(b"\r\n")
         evs = [("d", gens.ENQ)] + [("d", f) for f in frames] + [("d", gens.EOT)]
         hs.append(("astm", evs, {}))
+    # frames (intermediate ones too) that end with CR only, LF only or nothing behind the checksum, as line-oriented
+    # senders produce them: accepted, and classified by the position of ETB
+    for _ in range(600):
+        frames, text = gens.message_frames(r, seq=r.randrange(8), parts=r.choice([1, 2, 3, 4]))
+        style = r.choice([b"", b"\r", b"\n", None])
+        frames = [f.rstrip(b"\r\n") + (style if style is not None else r.choice([b"", b"\r", b"\n", b"\r\n"])) for f in frames]
+        evs = [("d", gens.ENQ)] + [("d", f) for f in frames] + [("d", gens.EOT)]
+        hs.append((r.choice(["astm", "lis2a"]), evs, {}))
     lines = recv.model_lines([(h[0], h[1]) for h in hs])
     model = common.drive(lines) if ctx.driver_ok else [None] * len(lines)
     for h, ml in zip(hs, model):
@@ -225,8 +238,7 @@ def run(ctx):
         mo = recv.parse_model(ml) if ml else None
         if mo is not None:
             recv.compare_history(x, h[0], h[1], obs, mo, case, check_oracle=False)
-    streams.append(x)
-    return streams
+    return x
 
 
 def search(ctx, disagreements):
